@@ -67,7 +67,13 @@ def json_lines(rnd, n):
         nm = rnd.randint(0, 6)
         for i in range(nm):
             raw, dec, hasu = "", "", False
-            for _ in range(rnd.randint(0, 4)):
+            if names and rnd.random() < 0.3:
+                # a name that is a proper prefix of an earlier one, or an earlier one plus an escape (the earlier member must not
+                # be taken for it, whatever follows the common part)
+                base = rnd.choice(names)
+                dec = base[:rnd.randint(0, max(0, len(base) - 1))] if rnd.random() < 0.7 else base + rnd.choice(['"', "\\", "\\\\", '\\"'])
+                raw = "".join(ESC.get(ch, ch) if ch in ('"', "\\", "\b", "\f", "\n", "\r", "\t") else ch for ch in dec)
+            for _ in range(0 if raw or dec else rnd.randint(0, 4)):
                 ch = rnd.choice(list("abck_ ") + list(ESC.keys()) + ["U"])
                 if ch == "U":
                     raw += "\\u00%02x" % rnd.randint(0x20, 0x7e)
@@ -89,7 +95,8 @@ def json_lines(rnd, n):
             if i + 1 < nm:
                 doc += "," + w()
         doc += "}" + w()
-        for key in set([rnd.choice(names) if names else "a", "a", rnd.choice(["", "zz", "ab", "k"])]):
+        prefixes = [n[:rnd.randint(0, len(n))] for n in names if n]
+        for key in set([rnd.choice(names) if names else "a", "a", rnd.choice(["", "zz", "ab", "k"])] + names[-2:] + prefixes[:2]):
             if "\x00" in key:
                 continue
             L.append("jf %s %s m=%s" % (hx(key), hx(doc), json.dumps(members, separators=(",", ":"))))
